@@ -1,6 +1,6 @@
 package main
 
-// C26: snapshot rewrites (tag, rewrite, rewrite --new-host) never lose the
+// C26: snapshot rewrites (tag, rewrite, rewrite --new-host, repair snapshots [--forget]) never lose the
 // snapshot at any crash point or under any single failing backend operation.
 //
 // Engine GATE (crashx) on the real runTag / runRewrite command functions: the
@@ -278,6 +278,163 @@ func TestVerif_C26(t *testing.T) {
 			},
 		}
 		crashx.Explore(r, t, sc, bound, seen)
+	}
+	// ---- repair snapshots (the third command of the statement): a repository with two healthy snapshots
+	// (S1, S2), a healthy snapshot whose root tree is empty (S3: what `rewrite --exclude` of everything leaves
+	// behind) and a damaged one (S4: file f = [stored blob, missing blob], file g intact).  At every crash
+	// state: S1, S2, S3 are present and untouched; S4 or a successor (original = S4, f reduced to the stored
+	// blob, g intact) is present.  After success: the successor exists; S4 is gone iff --forget.
+	{
+		store2 := gatebe.NewStoreFrom(base, nil)
+		be2 := &gatebe.Backend{S: store2, Proc: "setup", Conns: 2, AtomicReplace: true}
+		repo2, err := oracle.OpenOn(ctx, be2, repository.Options{})
+		if err != nil {
+			t.Fatal(err)
+		}
+		if err := repo2.LoadIndex(ctx, restic.NoopTerminalCounterFactory); err != nil {
+			t.Fatal(err)
+		}
+		xbuf, gbuf := oracle.LCG(41, 1200), oracle.LCG(42, 800)
+		missing := restic.Hash([]byte("C26: a data blob that is in no pack"))
+		var emptyTree, badTree restic.ID
+		err = repo2.WithBlobUploader(ctx, func(ctx context.Context, up restic.BlobSaverWithAsync) error {
+			xid, _, _, err := up.SaveBlob(ctx, restic.DataBlob, xbuf, restic.ID{}, false)
+			if err != nil {
+				return err
+			}
+			gid, _, _, err := up.SaveBlob(ctx, restic.DataBlob, gbuf, restic.ID{}, false)
+			if err != nil {
+				return err
+			}
+			tb := data.NewTreeJSONBuilder()
+			buf, err := tb.Finalize()
+			if err != nil {
+				return err
+			}
+			if emptyTree, _, _, err = up.SaveBlob(ctx, restic.TreeBlob, buf, restic.ID{}, false); err != nil {
+				return err
+			}
+			tb = data.NewTreeJSONBuilder()
+			for _, n := range []*data.Node{
+				{Name: "f", Type: data.NodeTypeFile, Mode: 0o644, Size: uint64(len(xbuf) + 500), Content: restic.IDs{xid, missing}},
+				{Name: "g", Type: data.NodeTypeFile, Mode: 0o644, Size: uint64(len(gbuf)), Content: restic.IDs{gid}},
+			} {
+				if err := tb.AddNode(n); err != nil {
+					return err
+				}
+			}
+			if buf, err = tb.Finalize(); err != nil {
+				return err
+			}
+			badTree, _, _, err = up.SaveBlob(ctx, restic.TreeBlob, buf, restic.ID{}, false)
+			return err
+		})
+		if err != nil {
+			t.Fatal(err)
+		}
+		save := func(tree restic.ID, tag string, sec int) restic.ID {
+			tr := tree
+			sn := &data.Snapshot{Time: time.Date(2021, 3, 3, 3, 4, sec, 0, time.UTC), Tree: &tr, Paths: []string{"/forged"}, Hostname: "hostA", Username: "verif", Tags: []string{tag}}
+			id, err := data.SaveSnapshot(ctx, repo2, sn)
+			if err != nil {
+				t.Fatal(err)
+			}
+			return id
+		}
+		s3 := save(emptyTree, "empty-root", 3)
+		s4 := save(badTree, "damaged", 4)
+		base2 := store2.Snapshot()
+		repaired := oracle.Content{"/f": oracle.FileDesc(xbuf), "/g": oracle.FileDesc(gbuf)}
+		untouched := []restic.ID{snaps[0].id, snaps[1].id, s3}
+
+		repairState := func(ctx context.Context, st gatebe.State, done, forget bool) []string {
+			rp, all, probs := listSnaps(ctx, st)
+			if rp == nil {
+				return probs
+			}
+			for _, id := range untouched {
+				k := gatebe.FileKey{Type: backend.SnapshotFile, Name: id.String()}
+				if string(st[k]) != string(base2[k]) || len(st[k]) == 0 {
+					probs = append(probs, fmt.Sprintf("missing: healthy snapshot %v was removed or changed by repair snapshots", id.Str()))
+				}
+			}
+			for _, l := range all {
+				if l.sn.Original != nil {
+					for _, id := range untouched {
+						if *l.sn.Original == id {
+							probs = append(probs, fmt.Sprintf("snapshot: healthy snapshot %v got a successor %v", id.Str(), l.id.Str()))
+						}
+					}
+				}
+			}
+			_, oldPresent := st[gatebe.FileKey{Type: backend.SnapshotFile, Name: s4.String()}]
+			var succ *loaded
+			for i, l := range all {
+				if l.sn.Original != nil && *l.sn.Original == s4 {
+					succ = &all[i]
+				}
+			}
+			succOK := ""
+			if succ != nil {
+				got, err := oracle.Walk(ctx, rp, *succ.sn.Tree)
+				if err != nil {
+					succOK = err.Error()
+				} else if ok, d := repaired.Equal(got); !ok {
+					succOK = d
+				}
+			}
+			switch {
+			case succ == nil && !oldPresent:
+				probs = append(probs, fmt.Sprintf("missing: neither the damaged snapshot %v nor a repaired successor is present", s4.Str()))
+			case succ != nil && succOK != "":
+				probs = append(probs, fmt.Sprintf("missing: the successor %v of the damaged snapshot is not the repaired content: %s", succ.id.Str(), succOK))
+			}
+			if done {
+				if succ == nil {
+					probs = append(probs, "snapshot: repair snapshots succeeded but the damaged snapshot has no successor")
+				}
+				if forget && oldPresent {
+					probs = append(probs, "snapshot: repair snapshots --forget succeeded but the damaged snapshot is still present")
+				}
+				if !forget && !oldPresent {
+					probs = append(probs, "snapshot: repair snapshots (without --forget) removed the damaged snapshot")
+				}
+			}
+			return probs
+		}
+		for _, forget := range []bool{false, true} {
+			forget := forget
+			name := "repair-snapshots"
+			if forget {
+				name += "-forget"
+			}
+			sc := crashx.Scenario{
+				Property: "C26", Name: name, Base: base2, Sem: sem,
+				Backend: func(be *gatebe.Backend) { be.Ungated = map[backend.FileType]bool{backend.LockFile: true} },
+				Prepare: func(ctx context.Context, run *crashx.Run, be *gatebe.Backend) (any, error) {
+					run.Data = be
+					return nil, nil
+				},
+				Op: func(ctx context.Context, run *crashx.Run, _ any) error {
+					be := run.Data.(*gatebe.Backend)
+					gopts := verifGopts(t, r.Scratch, be, oracle.Password)
+					return verifRun(t, ctx, gopts, func(ctx context.Context, gopts global.Options) error {
+						return runRepairSnapshots(ctx, gopts, RepairOptions{Forget: forget}, nil, gopts.Term)
+					})
+				},
+				NoFaultFailureIsViolation: true,
+				StateOracle: func(ctx context.Context, c crashx.Crash) []string {
+					return repairState(ctx, c.State, false, forget)
+				},
+				EndOracle: func(ctx context.Context, run *crashx.Run) []string {
+					if !run.Done || run.Err != nil || run.Faulted {
+						return nil
+					}
+					return repairState(ctx, run.Store.Snapshot(), true, forget)
+				},
+			}
+			crashx.Explore(r, t, sc, bound, seen)
+		}
 	}
 	r.Extra("deviation_bound", bound)
 }
